@@ -13,7 +13,7 @@ NA = 11   # > 9 atoms so that XTC uses its compressed path
 CELL = True
 # file "shapes" every reader-side check is replayed on: (atom count, unit cell written).  The second one has an atom count that
 # is a multiple of 10 (full text lines in mdcrd / rst7 style formats) and no box records where the format allows that.
-SHAPES = [(11, True), (20, False)]
+SHAPES = [(11, True), (20, False), (50, True)]       # the third one: atom subsets with large indices handed over in narrow integer dtypes
 NEEDS_CELL = ("lammpstrj", "dtr")
 
 
